@@ -158,6 +158,9 @@ func refParse(s string) (*refNum, bool) {
 
 const expLimit = 100000
 
+// maxTermLen bounds the size of one emitted Coq result term / argument.
+const maxTermLen = 3000
+
 // small reports whether the value can be materialised as a big.Rat cheaply.
 func (n *refNum) small() bool {
 	return n.totalExp.IsInt64() && n.totalExp.Int64() >= -2*expLimit-10 && n.totalExp.Int64() <= 2*expLimit+10
@@ -310,6 +313,18 @@ func (e *emitter) emit(op string, args []string, extra int64, term string, resul
 	}
 	if e.quiet {
 		return
+	}
+	// Coq's reader overflows its stack on string literals of tens of kilobytes: such cases
+	// (huge exponents rendered in plain notation) are monitored but not emitted.
+	if len(term) > maxTermLen {
+		e.hist["skipped:rendering-too-long"]++
+		return
+	}
+	for _, a := range args {
+		if len(a) > maxTermLen {
+			e.hist["skipped:rendering-too-long"]++
+			return
+		}
 	}
 	id := e.nextID
 	e.nextID++
@@ -1270,7 +1285,16 @@ func (e *emitter) extremePair(sx, sy string) {
 	if errx != nil || erry != nil {
 		return
 	}
+	ex, ey := repOf(dx).exp, repOf(dy).exp
+	gap := ex - ey
+	if gap < 0 {
+		gap = -gap
+	}
 	for _, bo := range binops {
+		additive := bo.name != "OpMul" && bo.name != "OpQuo" && bo.name != "OpMulExact" && bo.name != "OpQuoExact"
+		if additive && gap > 5000 && gap <= expLimit {
+			continue // aligning the operands needs a 10^gap coefficient: too slow to evaluate in Coq
+		}
 		z, err := bo.f(dx, dy)
 		if err == nil && len(z.String()) > 300 {
 			continue
